@@ -22,6 +22,8 @@ RULE = ("MC: exhaustive TLC runs of LiteClient (one action per critical section 
         "connection attempt for > 10 s after a close followed by the server being back (a dial may fail only when the server closed that "
         "attempt), authenticated connections on which the server repeats tcp.authentificationNonce and sends other auth constructors, every "
         "answer written in two TCP pieces with a pause (cut inside the size prefix after 1, 2, 3 bytes / nonce / payload / checksum), a soak, "
+        "the handshake acknowledgement followed at once (same write / next write) by an unsolicited packet on initial connections and "
+        "reconnections, a reconnection whose handshake the server answers only after deadline + slack while calls go on, "
         "and (thorough) the 10 s silence expiry; a call still inside Request after deadline + slack + 1 s is reported, not awaited. "
         "distinct = executions whose trace was accepted + hook-free executions that passed the harness assertions.")
 
@@ -194,6 +196,10 @@ def finalize(ck, plan, vecs, next_id):
             sc["split_every"], sc["split_ms"] = ck.rng.choice([1, 2]), ck.rng.choice([20, 50, 120])
             sc["timeout_ms"] = long_to      # the pauses are server-side delay: they must not eat a short client timeout
             sc["cls"] += "+split"
+        if sid % 6 == 3:
+            # every handshake acknowledgement (initial and after reconnects) is followed at once by an unsolicited packet
+            sc["eager"] = 1 + (sid // 6) % 2
+            sc["cls"] += "+eager"
         if sid % 5 == 2:
             # authenticated connections; unsolicited packets become repeated tcp.authentificationNonce / other auth constructors
             sc["auth"] = True
@@ -445,7 +451,7 @@ def run(ck):
     need = {"perm", "dup", "unk", "pong", "other", "late", "drop-mid", "drop-idle", "hsdrop"}
     if not need <= alltags:
         raise Infra("generated scripts do not cover %s" % sorted(need - alltags))
-    ndrop = sum(1 for s in scripts if any(st["a"] in ("drop", "hsdrop") for st in s["steps"]))
+    ndrop = sum(1 for s in scripts if any(st["a"] in ("drop", "hsdrop", "stall", "outage") for st in s["steps"]))
     ck.extra["scripts"] = len(scripts)
     ck.extra["scripts_with_drops"] = ndrop
     ck.extra["callers_max"] = max(s["ncalls"] + s["bg_callers"] for s in scripts)
@@ -481,6 +487,23 @@ def run(ck):
     for j, mode in enumerate(["traced", "bare"] + (["traced"] if ck.thorough else [])):
         bare.append({"id": 240000 + j, "plan": "split", "ncalls": 0, "nconns": 1 + j % 2, "timeout_ms": 2 * SLACK_MS + 300, "steps": [], "bg_callers": 6, "bg_calls": 4,
                      "followup": 1, "mode": mode, "jitter": False, "cls": "split", "split_every": 1, "split_ms": [50, 150, 20][j]})
+    # the handshake acknowledgement and an unsolicited packet (pong / unknown id / other, in turn) leave in ONE write (eager 1) or in two
+    # writes without a pause (eager 2), on the initial connections and on the reconnection after a drop; calls before, between and after
+    for j, (eg, mode, auth) in enumerate([(1, "traced", False), (2, "traced", False), (1, "bare", False)] + ([(2, "traced", True), (1, "traced", False)] if ck.thorough else [])):
+        st = [{"a": "recv", "i": 1}, {"a": "ans", "i": 1}, {"a": "recv", "i": 2}, {"a": "drop", "of": 2}, {"a": "recv", "i": 3}, {"a": "ans", "i": 3}]
+        for x in st:
+            for f in ("i", "k", "of"):
+                x.setdefault(f, 0)
+        bare.append({"id": 250000 + j, "plan": "eager", "ncalls": 3, "nconns": 1 + (j + 1) % 3, "timeout_ms": 2 * SLACK_MS + 300, "steps": st, "eager": eg, "auth": auth,
+                     "bg_callers": 2, "bg_calls": 4, "bg_gap_ms": 100, "followup": 2, "mode": mode, "jitter": j % 2 == 1, "cls": "eager"})
+    # stalled handshake: the server closes the link, accepts the reconnection and reads its handshake but holds the acknowledgement back for
+    # longer than deadline + slack; calls issued in that window must still return by their deadline; afterwards the client is back
+    for j in range(1 if not ck.thorough else 2):
+        to = 300
+        stall = to + SLACK_MS + 1000 + 1500
+        bare.append({"id": 260000 + j, "plan": "stall", "ncalls": 0, "nconns": 1 + j, "timeout_ms": to, "bg_callers": 2 + j, "bg_calls": stall // 200 + 8, "bg_gap_ms": 200,
+                     "steps": [{"a": "pause", "i": 0, "k": 0, "of": 0, "ms": 150}, {"a": "stall", "i": 0, "k": 1, "of": 0, "ms": stall}],
+                     "followup": 2, "mode": "traced", "jitter": False, "cls": "stall"})
     silence = []
     if ck.thorough:
         for j in range(2):
@@ -489,7 +512,7 @@ def run(ck):
 
     # ---- S->C: execute
     par = 12 if not ck.thorough else 16
-    todo = sorted(scripts + bare + silence, key=lambda sc: 0 if sc["plan"] in ("outage", "silence") else 1 if sc["plan"] in ("burst", "soak", "auth", "split") else 2)
+    todo = sorted(scripts + bare + silence, key=lambda sc: 0 if sc["plan"] in ("outage", "silence") else 1 if sc["plan"] in ("stall", "burst", "soak", "auth", "split", "eager") else 2)
     t_ex = time.time()
     execs = vlib.parallel(lambda s: execute(ck, binary, s, "x"), todo, n=par)
     ck.extra["exec_wall_s"] = round(time.time() - t_ex, 1)
